@@ -425,8 +425,16 @@ def run_parts(ctx, parts, need_build=True, hooks=True):
         ctx.cov["repo_build_s"] = round(build.wall, 1)
     theorems, targets, srcs = [], [], []
     for p in parts:
-        if hasattr(p, "prepare_src"):      # translator parts: regenerate Gen/*.lean from the tree
-            p.prepare_src(build.src if build else SRC)
+        # translator parts: regenerate Gen/*.lean from the tree before the Lean build.  Hook name
+        # `prepare_src(src)`; a `prepare(src|src_dir)` taking the source directory is honoured too.
+        hook = getattr(p, "prepare_src", None)
+        if hook is None and hasattr(p, "prepare"):
+            import inspect
+            params = list(inspect.signature(p.prepare).parameters)
+            if params and params[0] in ("src", "src_dir"):
+                hook = p.prepare
+        if hook is not None:
+            hook(build.src if build else SRC)
         theorems += p.THEOREMS; targets += p.BUILD_TARGETS; srcs += p.SOURCES
         ctx.trusted.append("modelled (%s): %s" % (p.NAME, p.MODELLED))
     proved = ctx.prove(targets, theorems)
